@@ -162,7 +162,10 @@ type c15Delivery struct {
 	Anomalies []string        `json:"anomalies,omitempty"`
 	Flight    int32           `json:"flight"`
 
-	Groups    int             `json:"router_handlers"` // router handlers (cqrs handlers / groups) on the same processor
+	Groups    int             `json:"router_handlers"`
+	Wrapped   bool            `json:"wrapped"` // the processor's marshaler is the recording wrapper
+	MTrace    [][]interface{} `json:"mtrace"`  // marshaler calls made for this delivery + Handle entries with object numbers
+	objs      map[interface{}]int // router handlers (cqrs handlers / groups) on the same processor
 
 	mu     sync.Mutex
 	msg    *message.Message
@@ -201,6 +204,7 @@ type c15Scenario struct {
 	lost      int32 // handler / hook invocations that could not be attributed to a delivery
 	Reg       [][]interface{}
 	regMu     sync.Mutex
+	wrapped   bool
 }
 
 var errC15Handler = errors.New("scripted handler error")
@@ -235,6 +239,9 @@ func (s *c15Scenario) handle(hid int, ctx context.Context, v any) error {
 	tag, _ := ctx.Value(c15TagKey{}).(int)
 	ty, c := ct.Render(v)
 	d.rec("handle", hid, ty, s.in.ID(c), s.origCode(d, ctx), tag)
+	if d.Wrapped {
+		d.mrec("m-handle", hid, d.objNum(v))
+	}
 	time.Sleep(time.Duration(200+hid*37%300) * time.Microsecond)
 	sc := d.script[hid]
 	if sc[0] != 0 {
@@ -524,7 +531,10 @@ func (s *c15Scenario) run(sIdx int) ([]*c15Delivery, error) {
 	if err != nil {
 		return nil, err
 	}
-	m := c15Marshaler(s.mk, nil)
+	var m cqrs.CommandEventMarshaler = c15Marshaler(s.mk, nil)
+	if s.wrapped {
+		m = &c15RecMarshaler{inner: m, in: s.in}
+	}
 	n := len(s.htypes)
 	subs := make([]*script.Subscriber, n)
 	topics := make([]string, n)
@@ -729,7 +739,8 @@ func (s *c15Scenario) run(sIdx int) ([]*c15Delivery, error) {
 			id := fmt.Sprintf("s%d-d%d", sIdx, atomic.AddInt64(&c15Seq, 1))
 			d := &c15Delivery{ID: id, Tab: s.tabIdx, Kind: s.kind, AckErrors: s.ackErrors, AckUnk: s.ackUnk, OnHandle: s.onHandle,
 				UUID: s.in.ID(id), Payload: pid, Tag: 1 + s.rng.Intn(5), Stale: s.rng.Intn(6) == 0, Source: raw.source, Sent: raw.sent,
-				Ctor: "config", Settles: []bool{}, Trace: [][]interface{}{}, script: map[int][2]int{}, subIdx: tgIdx, Groups: len(targets)}
+				Ctor: "config", Settles: []bool{}, Trace: [][]interface{}{}, script: map[int][2]int{}, subIdx: tgIdx, Groups: len(targets),
+				Wrapped: s.wrapped, MTrace: [][]interface{}{}}
 			if s.depr {
 				d.Ctor = "deprecated"
 			}
@@ -839,6 +850,8 @@ type c15BusCall struct {
 	Tag     int      `json:"tag"`
 	Conc    int      `json:"conc"`
 
+	Wrapped   bool            `json:"wrapped"`
+	MTrace    [][]interface{} `json:"mtrace"`
 	Trace     [][]interface{} `json:"trace"`
 	Res       int             `json:"res"` // 0 ok, 1..5 marshal/topic/hook/modify/publish error, 6 panicked, 7 other error
 	Anomalies []string        `json:"anomalies,omitempty"`
@@ -965,7 +978,11 @@ func (b *c15BusScenario) run(sIdx, tabIdx, mk int) ([]*c15BusCall, error) {
 			return "uuid-outside-call"
 		}
 	}
-	m := c15Marshaler(mk, newUUID)
+	var m cqrs.CommandEventMarshaler = c15Marshaler(mk, newUUID)
+	busWrapped := b.rng.Intn(10) < 7
+	if busWrapped {
+		m = &c15RecMarshaler{inner: m, in: b.in, bus: b}
+	}
 	pub := &script.Publisher{OnPublish: func(call int, topic string, msgs []*message.Message) error {
 		c := b.cur()
 		if c == nil {
@@ -1089,7 +1106,7 @@ func (b *c15BusScenario) run(sIdx, tabIdx, mk int) ([]*c15BusCall, error) {
 		key := b.tab.addValue(v)
 		id := fmt.Sprintf("b%d-%d", sIdx, k)
 		c := &c15BusCall{Tab: tabIdx, BusKind: busKind, Ctor: "config", Val: key, Ptr: ptr, Tag: 1 + b.rng.Intn(5), v: v,
-			uuidStr: "uuid-" + id, objs: map[*message.Message]int{}, Trace: [][]interface{}{}}
+			uuidStr: "uuid-" + id, objs: map[*message.Message]int{}, Trace: [][]interface{}{}, Wrapped: busWrapped, MTrace: [][]interface{}{}}
 		c.topicStr = fmt.Sprintf("topic-%d", b.rng.Intn(3))
 		c.Topic = b.in.ID(c.topicStr)
 		if !depr {
@@ -1343,6 +1360,7 @@ func cmdC15(args []string) error {
 
 	for i := 0; i < *nScen; i++ {
 		s := &c15Scenario{in: in, rng: rng}
+		s.wrapped = rng.Intn(10) < 7
 		s.mk = []int{0, 0, 1, 2, 3, 3, 4, 5}[rng.Intn(8)]
 		s.kind = []int{0, 1, 2, 2}[rng.Intn(4)]
 		s.depr = s.kind != 2 && rng.Intn(5) == 0
